@@ -18,7 +18,14 @@ package main
 // Command lines:   CONFIG udp=<bool>            start / reuse a server with that config
 //                  PROCS <svc>/<method> ...     run-time descriptor list (model compares with T-gen)
 //                  RPC svc=<s> proc=<p>[+variant] cred=<kind> target=<kind>
-// Observation:     <decision> victim=<unchanged|CHANGED>
+//                  WEBHOOK on|off|flush|expire  auth webhooks of A and B (one httptest endpoint each) configured /
+//                                               removed; verdict cache purged; (thorough) wait for the cache TTL
+//                  AUTH proc=<p>[+variant] home=<A|B> token=<none|ta|tb|terr>
+//                                               the own-ids request of the home project with its API key and that
+//                                               token (ta: only A's webhook allows it, tb: only B's, terr: every
+//                                               webhook answers 400, none: 401)
+// Observation:     <decision> victim=<unchanged|CHANGED>            (RPC)
+//                  <decision> consulted=<n> victim=<…>              (AUTH; n = calls of the home project's OWN webhook)
 
 import (
 	"bytes"
@@ -30,10 +37,12 @@ import (
 	stdlog "log"
 	"net"
 	"net/http"
+	"net/http/httptest"
 	"reflect"
 	"regexp"
 	"sort"
 	"strings"
+	"sync/atomic"
 	gotime "time"
 	"unsafe"
 
@@ -59,6 +68,10 @@ import (
 )
 
 func init() { register("access", runAccess) }
+
+// TTL of the auth webhook verdict cache: long enough for every within-TTL sequence of a trace
+// (a few dozen local requests), short enough to be waited for once in the thorough tier.
+const acHookTTL = 4 * gotime.Second
 
 const (
 	acClusterSecret = "verif-cluster-secret"
@@ -130,8 +143,80 @@ type acWorld struct {
 	seq     int
 	methods map[string]protoreflect.MethodDescriptor
 	third   bool
-	ghostID string // well-formed id that was never issued
-	ghostNm string // prefix of names nobody uses
+	ghostID string             // well-formed id that was never issued
+	ghostNm string             // prefix of names nobody uses
+	hooks   map[string]*acHook // auth webhook endpoint of project A / B
+	hookOn  bool               // A and B currently have their auth webhook configured
+}
+
+// acHook is the auth webhook endpoint of one project. Verdict per token: "setup" (the harness' own
+// fixture traffic) and "t<label>" allowed, "" 401, "terr" 400, everything else 403.
+type acHook struct {
+	label string
+	srv   *httptest.Server
+	calls atomic.Int64 // requests other than the harness' own fixture traffic
+}
+
+func newAcHook(label string) *acHook {
+	h := &acHook{label: label}
+	h.srv = httptest.NewServer(http.HandlerFunc(func(rw http.ResponseWriter, rq *http.Request) {
+		req, err := types.NewAuthWebhookRequest(rq.Body)
+		if err != nil {
+			rw.WriteHeader(http.StatusBadRequest)
+			return
+		}
+		if req.Token != "setup" {
+			h.calls.Add(1)
+		}
+		status, res := http.StatusForbidden, types.AuthWebhookResponse{Allowed: false, Reason: "denied by " + label}
+		switch req.Token {
+		case "setup", "t" + strings.ToLower(label):
+			status, res = http.StatusOK, types.AuthWebhookResponse{Allowed: true}
+		case "":
+			status, res = http.StatusUnauthorized, types.AuthWebhookResponse{Allowed: false, Reason: "no token"}
+		case "terr":
+			rw.WriteHeader(http.StatusBadRequest)
+			return
+		}
+		rw.Header().Set("Content-Type", "application/json")
+		rw.WriteHeader(status)
+		_ = json.NewEncoder(rw).Encode(res)
+	}))
+	return h
+}
+
+// keyHdr is the header set of the harness' own fixture traffic for a project.
+func (w *acWorld) keyHdr(label string) map[string]string {
+	h := acHKey(w.projs[label].pub)
+	if w.hookOn && w.hooks[label] != nil {
+		h[types.AuthorizationKey] = "setup"
+	}
+	return h
+}
+
+// setWebhook configures (or removes) the auth webhook of A and B through the admin API and
+// purges the verdict cache.
+func (w *acWorld) setWebhook(on bool) {
+	for _, l := range []string{"A", "B"} {
+		p := w.projs[l]
+		f := &api.UpdatableProjectFields{
+			AuthWebhookUrl:             wrapperspb.String(""),
+			AuthWebhookMethods:         &api.UpdatableProjectFields_AuthWebhookMethods{},
+			AuthWebhookMaxRetries:      wrapperspb.UInt64(0),
+			AuthWebhookMinWaitInterval: wrapperspb.String("10ms"),
+			AuthWebhookMaxWaitInterval: wrapperspb.String("10ms"),
+		}
+		if on {
+			f.AuthWebhookUrl = wrapperspb.String(w.hooks[l].srv.URL)
+			for _, m := range types.AuthMethods() {
+				f.AuthWebhookMethods.Methods = append(f.AuthWebhookMethods.Methods, string(m))
+			}
+		}
+		w.must("AdminService/UpdateProject", acHTok(w.users[p.owner].token), &api.UpdateProjectRequest{Id: p.id, Fields: f})
+		w.refreshProject(l)
+	}
+	w.hookOn = on
+	w.svr.Backend().Cache.AuthWebhook.Purge()
 }
 
 type acRes struct {
@@ -288,8 +373,8 @@ func newAcWorld(c *Ctx, udp, third bool) (w *acWorld, err error) {
 			err = fmt.Errorf("access world: %v", r)
 		}
 	}()
-	_ = logging.SetLogLevel("error")
-	stdlog.SetOutput(io.Discard) // net/http reports recovered handler panics here
+	_ = logging.SetLogLevel("fatal") // the webhook-error lines make the server log at error level
+	stdlog.SetOutput(io.Discard)     // net/http reports recovered handler panics here
 	conf := helper.TestConfig()
 	conf.Mongo = nil
 	conf.RPC.Port = acFreePort()
@@ -302,6 +387,7 @@ func newAcWorld(c *Ctx, udp, third bool) (w *acWorld, err error) {
 	conf.Backend.ChannelSessionTTL = "1h"
 	conf.Backend.ChannelSessionCleanupInterval = "1h" // per-project TTL defaults to 15s; no background expiry during the run
 	conf.Housekeeping.Interval = "1h"
+	conf.Backend.AuthWebhookCacheTTL = acHookTTL.String()
 	svr, err := server.New(conf)
 	if err != nil {
 		return nil, err
@@ -310,7 +396,7 @@ func newAcWorld(c *Ctx, udp, third bool) (w *acWorld, err error) {
 		return nil, err
 	}
 	w = &acWorld{c: c, udp: udp, svr: svr, addr: svr.RPCAddr(), hc: &http.Client{}, users: map[string]*acUser{},
-		projs: map[string]*acProj{}, third: third}
+		projs: map[string]*acProj{}, third: third, hooks: map[string]*acHook{"A": newAcHook("A"), "B": newAcHook("B")}}
 	w.methods, _ = acMethods()
 	w.ghostID, w.ghostNm = acGhostID, "nowhere"
 	if c.Tier == "thorough" { // thorough: random well-formed ids / names instead of the fixed ones
@@ -358,6 +444,11 @@ func newAcWorld(c *Ctx, udp, third bool) (w *acWorld, err error) {
 func (w *acWorld) close() {
 	if w != nil && w.svr != nil {
 		_ = w.svr.Shutdown(true)
+	}
+	if w != nil {
+		for _, h := range w.hooks {
+			h.srv.Close()
+		}
 	}
 }
 
@@ -440,7 +531,7 @@ func (w *acWorld) rebuild(label string) {
 	if label == "A" {
 		w.ensureMembers()
 	}
-	k, s := acHKey(p.pub), acHSec(p.sec)
+	k, s := w.keyHdr(label), acHSec(p.sec)
 	if old := p.fx; old != nil {
 		for _, cid := range []string{old.c1, old.c2} {
 			w.call("YorkieService/DeactivateClient", k, &api.DeactivateClientRequest{ClientId: cid, Synchronous: true})
@@ -665,8 +756,12 @@ type acSlots struct {
 	home                                                     *acProj
 }
 
-func (w *acWorld) slots(target string) *acSlots {
-	a, b := w.projs["A"], w.projs["B"]
+func (w *acWorld) slots(target string) *acSlots { return w.slotsFor(target, "A", "B") }
+
+// slotsFor: the ids of the home project's fixture, one of them replaced according to the target kind
+// by the other project's or by one that exists nowhere.
+func (w *acWorld) slotsFor(target, home, other string) *acSlots {
+	a, b := w.projs[home], w.projs[other]
 	s := &acSlots{client: a.fx.c1, attacher: a.fx.c2, docID: a.fx.docID, docKey: acSharedDoc, rev: a.fx.rev, sess: a.fx.sess,
 		room: acSharedRoom, schema: acSharedSchema, projName: a.name, projID: a.id, projMsg: a.project, home: a,
 		user: w.users["ua"].name, pass: acPassword}
@@ -1128,6 +1223,92 @@ func (w *acWorld) exec(line string) acOutcome {
 	return acOutcome{code: r.code, norm: norm, foreignB: !inAuth["B"]}
 }
 
+// execAuth runs one AUTH line: the own-ids request of the home project under its API key with the
+// given token, while A and B have (or do not have) their auth webhooks configured.
+func (w *acWorld) execAuth(line string) string {
+	c := w.c
+	t := strings.Fields(line)
+	procv, home, tok := acArg(t, "proc"), acArg(t, "home"), acArg(t, "token")
+	method, variant, _ := strings.Cut(procv, "+")
+	svc := "YorkieService"
+	other := map[string]string{"A": "B", "B": "A"}[home]
+	if w.methods[svc+"/"+method] == nil || other == "" {
+		c.Obs("unimplemented consulted=0 victim=unchanged")
+		return ""
+	}
+	hdr := acHKey(w.projs[home].pub)
+	if tok != "none" {
+		hdr[types.AuthorizationKey] = tok
+	}
+	s := w.slotsFor("own", home, other)
+	req := w.build(svc, method, variant, s)
+	before := w.dump()
+	own0, oth0 := w.hooks[home].calls.Load(), w.hooks[other].calls.Load()
+	r := w.call(svc+"/"+method, hdr, req)
+	own1, oth1 := w.hooks[home].calls.Load(), w.hooks[other].calls.Load()
+	if variant == "async" && r.code == "ok" {
+		w.awaitDeactivated(s.client, map[string]bool{w.projs[home].id: true})
+	}
+	w.reapSessions(r, []string{home})
+	after := w.dump()
+	victim := "unchanged"
+	for _, l := range w.order {
+		if l != home && before[w.projs[l].id] != after[w.projs[l].id] {
+			victim = "CHANGED"
+			c.Oracle("victim project %s changed by: %s -> %s :: %s", l, line, r.code, acFirstDiff(before[w.projs[l].id], after[w.projs[l].id]))
+		}
+	}
+	consulted := fmt.Sprintf("%d", own1-own0)
+	if oth1 != oth0 {
+		consulted += fmt.Sprintf("+other:%d", oth1-oth0)
+		c.Oracle("the auth webhook of project %s was asked about a request to project %s: %s", other, home, line)
+	}
+	// the property's own oracle: with a webhook configured a request is admitted only with a token
+	// the project's OWN webhook allows (cached or not) – never on another project's verdict
+	if w.hookOn {
+		ownAllows := tok == "t"+strings.ToLower(home)
+		switch {
+		case r.code == "ok" && !ownAllows:
+			c.Oracle("project %s admitted token %q although its own auth webhook does not allow it (own webhook consulted %d times): %s", home, tok, own1-own0, line)
+		case r.code != "ok" && ownAllows:
+			c.Oracle("project %s refused token %q although its own auth webhook allows it: %s -> %s", home, tok, line, r.code)
+		}
+	}
+	c.Count("auth-decision:" + r.code)
+	c.Count("auth-consulted:" + consulted)
+	c.Obs("%s consulted=%s victim=%s", r.code, consulted, victim)
+	if victim == "CHANGED" {
+		for _, l := range w.order {
+			if l != "D" {
+				w.rebuild(l)
+			}
+		}
+	} else if before[w.projs[home].id] != after[w.projs[home].id] {
+		w.rebuild(home)
+	}
+	return r.code
+}
+
+// acAuthLines is the webhook sequence of one Yorkie procedure: both orders (A first, B first) inside
+// the cache TTL, repeated with a cold cache, (thorough) once more after the TTL has passed.
+func acAuthLines(procv string, expire bool) []string {
+	au := func(home, tok string) string {
+		return fmt.Sprintf("AUTH proc=%s home=%s token=%s", procv, home, tok)
+	}
+	l := []string{"WEBHOOK on",
+		au("A", "ta"), au("B", "ta"), au("A", "ta"), au("B", "ta"), // A first: B must not inherit A's cached allow
+		au("B", "tb"), au("A", "tb"), au("B", "tb"), // and the mirror image
+		au("A", "none"), au("A", "none"), au("B", "none"), au("A", "terr"), au("A", "terr"),
+		"WEBHOOK flush",
+		au("B", "ta"), au("A", "ta"), au("B", "ta"), // B first: A must not inherit B's cached deny
+		au("A", "tb"), au("B", "tb"), au("A", "tb"),
+	}
+	if expire {
+		l = append(l, "WEBHOOK expire", au("B", "ta"), au("A", "ta"), au("A", "ta"), au("A", "tb"), au("B", "tb"))
+	}
+	return append(l, "WEBHOOK off", au("A", "none"), au("B", "ta"))
+}
+
 // ---------------------------------------------------------------- engine
 
 func acLines(w map[string]protoreflect.MethodDescriptor, order []string) map[string][]string {
@@ -1160,7 +1341,9 @@ func runAccess(c *Ctx) error {
 	c.stats.ExhaustiveScope = "every procedure of the YorkieService/AdminService/ClusterService descriptors (run-time list, cross-checked against the T-gen table) " +
 		"x credential kinds {Yorkie: none, bad key, other project's key, own key; Admin: none, bad token, outsider token, member token, owner token, bad secret, empty secret, other project's secret, own secret; " +
 		"Cluster: none, wrong secret, right secret} x target kinds {own ids; foreign and nowhere-existing client id, document id, document/channel/schema name, revision id, session id, project name/id; wrong password} " +
-		"x server configuration {UseDefaultProject on, off}, cluster secret configured"
+		"x server configuration {UseDefaultProject on, off}, cluster secret configured; " +
+		"auth webhook dimension: every YorkieService procedure (and request shape) x home project {A, B} x token {allowed by A's webhook only, allowed by B's webhook only, none, webhook error} " +
+		"in both orders inside the verdict-cache TTL and again with a cold cache (thorough: once after the TTL), with per-request call counters of both projects' webhook endpoints"
 	var w *acWorld
 	defer func() { w.close() }()
 	third := c.Tier == "thorough"
@@ -1185,9 +1368,44 @@ func runAccess(c *Ctx) error {
 			if err := ensure(acArg(t, "udp") == "true", acArg(t, "third") == "true"); err != nil {
 				return err
 			}
+			if w.hookOn { // a trace that was cut short left the webhooks configured
+				w.setWebhook(false)
+			}
 			c.Obs("config ok")
 		case "PROCS":
 			c.Obs("procs ok n=%d", len(t)-1)
+		case "WEBHOOK":
+			if w == nil {
+				if err := ensure(true, false); err != nil {
+					return err
+				}
+			}
+			switch t[1] {
+			case "on":
+				w.setWebhook(true)
+			case "off":
+				w.setWebhook(false)
+			case "flush":
+				w.svr.Backend().Cache.AuthWebhook.Purge()
+			case "expire":
+				gotime.Sleep(acHookTTL + 300*gotime.Millisecond)
+			}
+			c.Obs("webhook %s", t[1])
+		case "AUTH":
+			if w == nil {
+				if err := ensure(true, false); err != nil {
+					return err
+				}
+			}
+			switch w.execAuth(l) {
+			case "ok":
+				sawOK = true
+			case "permission_denied", "unauthenticated":
+				sawDenied = true
+			}
+			if sawOK && sawDenied {
+				c.Nontrivial()
+			}
 		case "RPC":
 			if w == nil {
 				if err := ensure(true, false); err != nil {
@@ -1279,6 +1497,36 @@ func runAccess(c *Ctx) error {
 				c.Cmd("%s", l)
 				if err := runLine(l); err != nil {
 					return err
+				}
+			}
+		}
+		// the auth webhook dimension: every Yorkie procedure (all of them call auth.VerifyAccess)
+		for _, k := range order {
+			svc, method, _ := strings.Cut(k, "/")
+			if svc != "YorkieService" {
+				continue
+			}
+			vs := acVariants[k]
+			if vs == nil {
+				vs = []string{""}
+			}
+			for _, v := range vs {
+				ti++
+				if ti%shards != shard {
+					continue
+				}
+				pv := method
+				if v != "" {
+					pv += "+" + v
+				}
+				c.Trace(fmt.Sprintf("access-udp%v-webhook-%s.%s", udp, svc, pv))
+				sawOK, sawDenied = false, false
+				cl := fmt.Sprintf("CONFIG udp=%v secret=set third=%v", udp, third)
+				for _, l := range append([]string{cl}, acAuthLines(pv, third && pv == "PushPullChanges")...) {
+					c.Cmd("%s", l)
+					if err := runLine(l); err != nil {
+						return err
+					}
 				}
 			}
 		}
